@@ -104,7 +104,7 @@ constexpr int N_BITS = 5;
 void run_atomics(Case& c, int which);      // c15_bits.cpp (AtomicHelpers)
 constexpr int N_ATOMICS = 3;
 void run_sets(Case& c, int which);         // c15_sets.cpp (ThreadSafeOrderedSet/MinHeap, UnionFind)
-constexpr int N_SETS = 3;
+constexpr int N_SETS = 4;
 
 template <typename T>
 inline std::string show(const T& v) {
